@@ -883,6 +883,9 @@ func c14Subscription(p *Prog, r *Report) {
 		if sites < 2 {
 			bad = append(bad, fmt.Sprintf("Handshake registers for events on %d of its 2 success paths (READY, AUTH_SUCCESS)", sites))
 		}
+		// every successful way through the handshake of a connection that has an event handler
+		// (READY, AUTH_SUCCESS at once, AUTH_SUCCESS after any number of challenges) registers
+		bad = append(bad, c14RegisterOnSuccess(p, r, hs, reg, fam)...)
 	}
 	// ClientConn.Receive: EVENT -> handler
 	recv := p.methodOf(cc, "Receive")
@@ -925,4 +928,81 @@ func c14Subscription(p *Prog, r *Report) {
 	}
 	r.count("sim_states", s.Nodes)
 	r.check(len(bad) == 0, rule, "subscription chain", p.Pos(connect.Pos()), "", strings.Join(dedupe(bad), " || "))
+}
+
+// c14RegisterOnSuccess simulates the backend handshake of a connection that has an event handler:
+// every path on which Handshake returns a nil error has sent REGISTER (reg) exactly once.  The
+// handshake steps (functions of the handshake family that exchange frames with the server or lead
+// to reg) are followed; the exchange itself and the authenticator are opaque and may answer anything.
+func c14RegisterOnSuccess(p *Prog, r *Report, hs, reg *ssa.Function, fam map[*ssa.Function]bool) []string {
+	cc := p.Named("proxycore", "ClientConn")
+	sar := p.methodOf(cc, "SendAndReceive")
+	calls := func(f, g *ssa.Function) bool {
+		found := false
+		eachCall(f, func(c ssa.CallInstruction) {
+			if c.Common().StaticCallee() == g {
+				found = true
+			}
+		})
+		return found
+	}
+	step := map[*ssa.Function]bool{}
+	for f := range fam {
+		if f != sar && (calls(f, sar) || calls(f, reg)) {
+			step[f] = true
+		}
+	}
+	for changed := true; changed; {
+		changed = false
+		for f := range fam {
+			if step[f] || f == sar {
+				continue
+			}
+			for g := range step {
+				if calls(f, g) {
+					step[f] = true
+					changed = true
+					break
+				}
+			}
+		}
+	}
+	step[hs] = true
+	ehF := p.Field("proxycore", "ClientConn", "eventHandler")
+	s := newSim(p)
+	s.Tracked[ehF] = true
+	s.Inline = func(fn *ssa.Function) bool { return step[fn] && fn != reg }
+	s.Effect = func(call ssa.CallInstruction, callee *ssa.Function) []string {
+		if callee == reg {
+			return []string{"register"}
+		}
+		return nil
+	}
+	s.Progress["register"] = true
+	// a package-level error value (errors.New at initialisation) is not nil
+	s.LoadVal = func(load *ssa.UnOp) (AV, bool) {
+		if g, ok := load.X.(*ssa.Global); ok && types.Identical(load.Type(), types.Universe.Lookup("error").Type()) && g.Pkg != nil && strings.HasPrefix(g.Pkg.Pkg.Path(), modPath) {
+			return AV{K: avNonNil}, true
+		}
+		return AV{}, false
+	}
+	init := newState()
+	init.cells[ehF] = AV{K: avNonNil}
+	var bad []string
+	n := 0
+	for _, o := range s.Run(hs, init) {
+		if o.Panic {
+			continue
+		}
+		n++
+		if o.Ret.elem(1).K != avNonNil && o.St.eff["register"] != 1 {
+			bad = append(bad, fmt.Sprintf("the handshake of a connection with an event handler can succeed (return at %s) having sent REGISTER %d times: a control connection that took that path receives no events (or every event twice), on start-up and after every reconnect", p.Pos(o.Pos), o.St.eff["register"]))
+		}
+	}
+	if n == 0 {
+		fatalf("anchor: the simulation of the backend handshake produced no outcome")
+	}
+	r.count("sim_states", s.Nodes)
+	r.count("handshake_outcomes", n)
+	return bad
 }
